@@ -745,3 +745,18 @@ def entries_events(track, d, entries):
 
 def final_delay(d, entries):
     return d if len(entries) == 0 else final_delay(delay_after(d, entries[0]), entries[1:])
+
+
+# ------------------------------------------------------------------ MIDI reader: variable-length quantity at a file offset
+
+def vlq_len_at(data, p):
+    """number of bytes (1..4) of the variable-length quantity that starts at data[p]"""
+    return 1 if data[p] < 128 else (2 if data[p + 1] < 128 else (3 if data[p + 2] < 128 else 4))
+
+
+def vlq_val_at(data, p):
+    """value of the variable-length quantity (1..4 bytes) that starts at data[p]"""
+    return (data[p] if data[p] < 128 else
+            ((data[p] % 128) * 128 + data[p + 1] if data[p + 1] < 128 else
+             ((data[p] % 128) * 16384 + (data[p + 1] % 128) * 128 + data[p + 2] if data[p + 2] < 128 else
+              (data[p] % 128) * 2097152 + (data[p + 1] % 128) * 16384 + (data[p + 2] % 128) * 128 + data[p + 3] % 128)))
